@@ -498,8 +498,24 @@ fn gen_value(r: &mut Rng, d: u32) -> Value {
         1 => Value::Int32Value(i32::gen(r, d)),
         2 => Value::text(String::gen(r, d)),
         3 => Value::BooleanValue(r.chance(1, 2)),
-        4 => Value::Int64Value(i64::gen(r, d)),
-        5 => Value::UInt64Value(u64::gen(r, d)),
+        // integers in the kind the materialiser gives them back (`recognize_item`): the instance text is compared
+        4 => {
+            let n = i64::gen(r, d);
+            match i32::try_from(n) {
+                Ok(m) => Value::Int32Value(m),
+                Err(_) => Value::Int64Value(n),
+            }
+        }
+        5 => {
+            let n = u64::gen(r, d);
+            if let Ok(m) = i32::try_from(n) {
+                Value::Int32Value(m)
+            } else if let Ok(m) = i64::try_from(n) {
+                Value::Int64Value(m)
+            } else {
+                Value::UInt64Value(n)
+            }
+        }
         _ => {
             let na = r.below(3);
             let ni = r.below(4);
@@ -1641,7 +1657,7 @@ impl<T: Fv + Form + 'static> Ops for Bat<T> {
             Err(_) => "noparse".into(),
             Ok(v) => res(T::try_from_value(&v)),
         });
-        format!("A={} B={}", a, b)
+        format!("A={} B={} c={}", a, b, text_class(&text))
     }
     fn mp(&self, inst: &str) -> String {
         let t = match parse_inst::<T>(inst) {
@@ -1901,6 +1917,117 @@ fn mutate_text(r: &mut Rng, s: &str) -> String {
         }
     }
     out.into_iter().collect()
+}
+
+/// Lexical class of a Recon text (labels for triage of two-path disagreements, not used by the monitor's verdict):
+/// `e` an attribute without body or with `()`; `s` an attribute body made only of separators; `m` an attribute body
+/// with several top-level items that is not wrapped in braces.
+fn text_class(t: &str) -> String {
+    let cs: Vec<char> = t.chars().collect();
+    let (mut e, mut sflag, mut m) = (false, false, false);
+    let mut i = 0;
+    let n = cs.len();
+    let skip_str = |i: &mut usize| {
+        // at an opening quote
+        *i += 1;
+        while *i < n && cs[*i] != '"' {
+            if cs[*i] == '\\' {
+                *i += 1;
+            }
+            *i += 1;
+        }
+        *i += 1;
+    };
+    while i < n {
+        if cs[i] == '"' {
+            skip_str(&mut i);
+            continue;
+        }
+        if cs[i] == '@' {
+            i += 1;
+            if i < n && cs[i] == '"' {
+                skip_str(&mut i);
+            } else {
+                while i < n && (cs[i].is_alphanumeric() || cs[i] == '_' || !cs[i].is_ascii()) {
+                    i += 1;
+                }
+            }
+            if i < n && cs[i] == '(' {
+                // scan the body
+                let mut depth = 0i32;
+                let mut j = i + 1;
+                let (mut seps, mut other, mut braced_only) = (0, 0, true);
+                let mut top_items_started = false;
+                while j < n {
+                    let c = cs[j];
+                    if c == '"' {
+                        let mut k = j;
+                        skip_str(&mut k);
+                        if depth == 0 {
+                            other += 1;
+                            braced_only = false;
+                        }
+                        j = k;
+                        continue;
+                    }
+                    if depth == 0 && c == ')' {
+                        break;
+                    }
+                    if c == '(' || c == '{' {
+                        if depth == 0 && c == '(' {
+                            braced_only = false;
+                        }
+                        if depth == 0 && top_items_started {
+                            // a second top-level group
+                        }
+                        depth += 1;
+                        if depth == 1 {
+                            other += 1;
+                            top_items_started = true;
+                        }
+                    } else if c == ')' || c == '}' {
+                        depth -= 1;
+                    } else if depth == 0 {
+                        if c == ',' || c == ';' || c == '\n' {
+                            if c != '\n' {
+                                seps += 1;
+                            }
+                        } else if !c.is_whitespace() {
+                            other += 1;
+                            braced_only = false;
+                        }
+                    }
+                    j += 1;
+                }
+                if other == 0 && seps == 0 {
+                    e = true;
+                } else if other == 0 {
+                    sflag = true;
+                } else if seps > 0 && !(braced_only && other == 1) {
+                    m = true;
+                }
+                i = j;
+            } else {
+                e = true;
+            }
+            continue;
+        }
+        i += 1;
+    }
+    let mut o = String::new();
+    if e {
+        o.push('e');
+    }
+    if sflag {
+        o.push('s');
+    }
+    if m {
+        o.push('m');
+    }
+    if o.is_empty() {
+        o.push('-');
+    }
+    o
 }
 
 fn mutate_bytes(r: &mut Rng, b: &[u8]) -> Vec<u8> {
